@@ -203,6 +203,12 @@ func anyExpr(g *xgen.G, rt *rapid.T, ctx *xdoc.Node) (e xast.Expr, nodeSet bool)
 		return anyNodeSetExpr(g, rt, ctx), true
 	case 14:
 		return mergedStateful(g, rt, ctx), true
+	case 15:
+		// A or B / A and B over node-sets, handed to Select as well: the engine answers that with
+		// nodes of its own choosing (no property says which), but it has to be the same answer at
+		// every use of the compiled expression and from every goroutine
+		o := xgen.PathOpts{MaxSteps: 2, AbsShare: 4, DSlash: 3}
+		return &xast.Bin{Op: rapid.SampledFrom([]string{"or", "and"}).Draw(rt, "boolsel"), L: g.AxisPath(ctx, o), R: g.AxisPath(ctx, o)}, true
 	case 6:
 		e, _ = g.BoolExpr(ctx, 2)
 		if xast.HasCall(e, "contains") {
